@@ -205,7 +205,17 @@ class DocActions(object):
     self._engine.rebuild_usercode()
 
     schema_table_info.columns[col_id] = new
-    self._engine.rebuild_usercode()
+    try:
+      self._engine.rebuild_usercode()
+    except Exception:
+      # The new definition can't be built (e.g. unknown type). The old Column object is already
+      # gone from the table, so put the old definition back, with its data, before failing.
+      schema_table_info.columns[col_id] = old
+      self._engine.rebuild_usercode()
+      restored_column = table.get_column(col_id)
+      for row_id in table.row_ids:
+        restored_column.set(row_id, old_column.raw_get(row_id))
+      raise
 
     # Fill in the new column with the values from the old column.
     new_column = table.get_column(col_id)
